@@ -273,13 +273,24 @@ pub fn funding_tx_for(w: &mut World, ci: usize) -> Transaction {
     funding_tx
 }
 
+/// Connect `k` blocks without relevant transactions to the node's tracker.
+pub fn connect_empty_blocks(w: &mut World, k: u32, salt: u64) {
+    for i in 0..k {
+        connect_block_with(w, vec![], salt.wrapping_mul(1000).wrapping_add(i as u64));
+    }
+}
+
 /// Connect a block holding `tx` to the node's tracker (and persist the tracker).
 pub fn confirm_tx(w: &mut World, tx: &Transaction, salt: u64) {
+    connect_block_with(w, vec![tx.clone()], salt);
+}
+
+fn connect_block_with(w: &mut World, txs: Vec<Transaction>, salt: u64) {
     let tip = w.node.get_tracker().tip().0;
     let height = w.node.get_tracker().height() + 1;
     // regtest difficulty whatever the network: a testnet tracker accepts any difficulty between
     // retarget heights (its 20-minute rule makes the bits of consecutive blocks unrelated)
-    let block = make_block_bits(&tip, height, salt, vec![tx.clone()], bitcoin::blockdata::constants::genesis_block(Network::Regtest).header.bits);
+    let block = make_block_bits(&tip, height, salt, txs, bitcoin::blockdata::constants::genesis_block(Network::Regtest).header.bits);
     let node = w.node.clone();
     let d = w.txn(|| {
         let d = tracker_add(&node, &block, false, 0);
@@ -289,7 +300,7 @@ pub fn confirm_tx(w: &mut World, tx: &Transaction, salt: u64) {
     }).0;
     match d {
         Deliver::Ok => {}
-        d => panic!("connecting the funding block failed: {:?}", d),
+        d => panic!("connecting a block failed: {:?}", d),
     }
 }
 
